@@ -9,9 +9,11 @@ PROPERTY = PropertySpec(
     id='C18', contracts=list(ALIAS_CONTRACTS) + list(ALIAS_EXPORT) + [InitOwnership('alias'), InterfaceInit()], bounded=[AliasTwin()], level='other',
     explanation='The four forwarding methods of AliasMixin are executed symbolically from source with a symbolic name: the parent is called exactly once '
                 'with the resolved name (alias -> variable, anything else unchanged), the rest of the key and the value unchanged, and its result '
-                'returned. Chain resolution in __init__ (now bounded loop, repaired), constructor keywords, "no extra storage" and the export '
-                'renaming are decided by the bounded twin run over all alias maps up to the size bound.',
-    level_text='proof obligations for the forwarders + bounded twin runs over enumerated alias maps; mixed, hence other',
+                'returned. AliasMixin.__init__ is executed from source on every alias map with <= 3 aliases (156 maps: chains, self-maps, cycles): each alias resolves to the variable at the end of its chain, cycles are '
+                'rejected, constructor keywords given through aliases reach the underlying variables, the instance tables are copies. AliasMixin.to_dataframe: the export options are forwarded unchanged, '
+                'the only operation on the table is one rename, each column to one of its own aliases (the preferred one where declared), ambiguous preferences rejected. "No extra storage" and the data of the '
+                'exported table are decided by the bounded twin run.',
+    level_text='proof obligations for the forwarders (all names), the constructor (all alias maps with <= 3 aliases) and the export (9 alias/preference shapes, all flag values) + bounded twin runs; mixed, hence other',
     level_note='trusted: pyvc, z3; bound: alias maps with <= 3 aliases (quick) over 3 variables',
     technique='contract-based deductive verification of the forwarders (pyvc + z3); bounded twin-run contract',
     design_ref='DESIGN.md section 10 / C18',
